@@ -315,7 +315,7 @@ def run_pairs(case, out):
     ok1, s_ab = call(out, "angular_distance(c_symmetry)", lambda: geom.angular_distance(RA, RB, c_symmetry=ns))
     ok2, s_ba = call(out, "angular_distance(c_symmetry)", lambda: geom.angular_distance(RB, RA, c_symmetry=ns))
     ok3, s_aa = call(out, "angular_distance(c_symmetry)", lambda: geom.angular_distance(RA, RA, c_symmetry=ns))
-    if ok1 and ok2 and ok3:
+    if ok1 and ok2 and ok3 and out.check(all(isinstance(v_, tuple) and len(v_) >= 1 for v_ in (s_ab, s_ba, s_aa)), "angdist_sym:return_shape", lambda: f"{type(s_ab).__name__}"):
         s_ab, s_ba, s_aa = [np.asarray(v_[0], float).reshape(-1) for v_ in (s_ab, s_ba, s_aa)]
         if out.check(s_ab.shape == (n,) and bool(np.all(np.isfinite(s_ab))), "angdist_sym:shape_or_nan", s_ab.shape):
             out.check(bool(np.all((s_ab >= 0) & (s_ab <= 180 + 1e-9))), "angdist_sym:out_of_range", lambda: f"{s_ab.min()} {s_ab.max()}")
